@@ -14,5 +14,5 @@ Extraction "../ocaml/scrunch/gen_scrunch.ml"
   ref_search ref_count ref_lookup ref_retrieve ref_offset_of
   occurrences spec_record_of spec_record
   sigma_K char_to_sigma sa_index_to_sigma sa_index_to_t sa_range_for sa_range_for_sigma
-  sigma_construct translate_text suffix_array
+  sigma_construct translate_text suffix_array inverse psi_of inverse_and_psi
   N.of_nat N.to_nat.
